@@ -141,6 +141,8 @@ pub enum Corruption {
     /// cut the expression text after this many (relative) bytes, strictly inside
     Truncate(Slot, u16),
     TrailingGarbage(Slot, String),
+    /// a path cut right after a `.` or `#` separator (`.name.`, `.list#`)
+    DanglingSeparator(Slot, bool),
     BadDirection(usize, String),
     SetWithoutEquals,
     SetEmptyName(bool),
@@ -343,7 +345,7 @@ fn slots_of(cfg: &Cfg) -> Vec<Slot> {
 }
 
 pub fn arb_case() -> BoxedStrategy<Case18> {
-    (arb_cfg(), any::<u16>(), 0u8..15, any::<u16>(), prop::sample::select(vec!["junk", ")", "x y", "1", "(size .)", "]", "="]), prop::sample::select(vec!["UP", "DOWN", "ascending", "D", "1", "DESCC", "DESC junk", "asc )", "desc asc", "ASC 1", "desc,", "ASC ASC"]), any::<u64>(), prop::bool::weighted(0.2))
+    (arb_cfg(), any::<u16>(), 0u8..16, any::<u16>(), prop::sample::select(vec!["junk", ")", "x y", "1", "(size .)", "]", "="]), prop::sample::select(vec!["UP", "DOWN", "ascending", "D", "1", "DESCC", "DESC junk", "asc )", "desc asc", "ASC 1", "desc,", "ASC ASC"]), any::<u64>(), prop::bool::weighted(0.2))
         .prop_map(|(mut cfg, slot_pick, kind, cut, garbage, baddir, order, via_file)| {
             let slots = slots_of(&cfg);
             let slot = if slots.is_empty() {
@@ -367,7 +369,8 @@ pub fn arb_case() -> BoxedStrategy<Case18> {
                 11 => Corruption::CsvWithoutSelection,
                 12 => Corruption::CsvWithGroup,
                 13 => Corruption::JsonOptionWithOther,
-                _ => Corruption::TextOptionWithOther,
+                14 => Corruption::TextOptionWithOther,
+                _ => Corruption::DanglingSeparator(slot, cut % 2 == 0),
             };
             Case18 { cfg, corruption, order, via_file }
         })
@@ -425,6 +428,37 @@ pub fn corrupt(cfg: &Cfg, c: &Corruption) -> Option<Vec<String>> {
                 _ => cutted,
             };
             Some(cfg.args(Some((s, cutted))))
+        }
+        Corruption::DanglingSeparator(s, hash) => {
+            let t = cfg.slot_text(s)?;
+            if !t.is_ascii() {
+                return None;
+            }
+            // the first path token with at least one element: `.a`, `.a.b`, `.l#0`, `^.a`
+            let b = t.as_bytes();
+            let mut i = 0;
+            let mut in_str = false;
+            let mut at: Option<usize> = None;
+            while i < b.len() {
+                if b[i] == b'"' {
+                    in_str = !in_str;
+                } else if !in_str && (b[i] == b'.' || b[i] == b'#') && i + 1 < b.len() && b[i + 1].is_ascii_alphanumeric() && (i == 0 || matches!(b[i - 1], b' ' | b'(' | b'^' | b',')) {
+                    let mut j = i + 1;
+                    while j < b.len() && (b[j].is_ascii_alphanumeric() || b[j] == b'.' || b[j] == b'#' || b[j] == b'_') {
+                        j += 1;
+                    }
+                    at = Some(j);
+                    break;
+                }
+                i += 1;
+            }
+            let j = at?;
+            let corrupted = format!("{}{}{}", &t[..j], if *hash { "#" } else { "." }, &t[j..]);
+            let corrupted = match s {
+                Slot::Select(i) => format!("{} = n{}", corrupted, i),
+                _ => corrupted,
+            };
+            Some(cfg.args(Some((s, corrupted))))
         }
         Corruption::TrailingGarbage(s, g) => {
             let t = cfg.slot_text(s)?;
@@ -591,6 +625,7 @@ impl Check for C18Reject {
             Corruption::MissingParen(_) => "missing_paren",
             Corruption::Truncate(..) => "truncation",
             Corruption::TrailingGarbage(..) => "trailing_garbage",
+            Corruption::DanglingSeparator(..) => "dangling_path_separator",
             Corruption::BadDirection(..) => "bad_direction",
             Corruption::SetWithoutEquals => "set_without_equals",
             Corruption::SetEmptyName(_) => "set_empty_name",
@@ -603,7 +638,7 @@ impl Check for C18Reject {
         };
         let late_slot = matches!(
             &case.corruption,
-            Corruption::UnknownFunction(s) | Corruption::ArityLow(s) | Corruption::ArityHigh(s) | Corruption::MissingParen(s) | Corruption::Truncate(s, _) | Corruption::TrailingGarbage(s, _) | Corruption::UnknownContext(s)
+            Corruption::UnknownFunction(s) | Corruption::ArityLow(s) | Corruption::ArityHigh(s) | Corruption::MissingParen(s) | Corruption::Truncate(s, _) | Corruption::TrailingGarbage(s, _) | Corruption::DanglingSeparator(s, _) | Corruption::UnknownContext(s)
                 if !matches!(s, Slot::Group)
         ) || matches!(&case.corruption, Corruption::BadDirection(..) | Corruption::SetWithoutEquals | Corruption::SetEmptyName(_) | Corruption::SetDuplicate);
         let headers_style = case.cfg.out == 1 || case.cfg.out_opts.iter().any(|o| o == "--headers") || matches!(&case.corruption, Corruption::CsvWithGroup | Corruption::CsvWithoutSelection);
